@@ -736,6 +736,159 @@ def symbolic_paths(fn, src, dst, atom_of_call, avoid=(), max_paths=20000):
     return out
 
 
+
+# ------------------------------------------------------------------------------------------------
+# Inlined views: the body of a function with its crate-local helpers spliced in, so that intra-procedural rules keep seeing
+# one body when a block of it has been extracted into a helper function (the most common maintenance refactoring).
+def _shift_place(pl, off):
+    q = dict(pl)
+    q['l'] = pl['l'] + off
+    if pl['p']:
+        q['p'] = [({'idx': e['idx'] + off} if isinstance(e, dict) and 'idx' in e else e) for e in pl['p']]
+    return q
+
+
+def _shift_op(o, off):
+    if isinstance(o, dict) and 'pl' in o:
+        q = dict(o)
+        q['pl'] = _shift_place(o['pl'], off)
+        return q
+    return o
+
+
+def _shift_rv(r, off):
+    q = dict(r)
+    if 'ops' in r:
+        q['ops'] = [_shift_op(o, off) for o in r['ops']]
+    if 'pl' in r:
+        q['pl'] = _shift_place(r['pl'], off)
+    return q
+
+
+def _shift_block(b, loff, boff, ret_local, call_dst, call_target, call_sp):
+    nb = {'bb': b['bb'] + boff, 'cleanup': False, 'stmts': [], 'term': None}
+    for st in b['stmts']:
+        nb['stmts'].append({'dst': _shift_place(st['dst'], loff), 'r': _shift_rv(st['r'], loff), 'sp': st['sp']})
+    t = b['term']
+    if t is None:
+        return nb
+    k = t['t']
+    if k == 'call':
+        nt = dict(t)
+        nt['args'] = [_shift_op(a, loff) for a in t['args']]
+        nt['dst'] = _shift_place(t['dst'], loff)
+        nt['target'] = t['target'] + boff if t['target'] >= 0 else -1
+        m = re.match(r'^<indirect:_(\d+)>$', t['callee'])
+        if m:
+            nt['callee'] = '<indirect:_%d>' % (int(m.group(1)) + loff)
+    elif k == 'switch':
+        nt = dict(t)
+        nt['discr'] = _shift_op(t['discr'], loff)
+        nt['targets'] = [[v, tg + boff] for v, tg in t['targets']]
+        nt['otherwise'] = t['otherwise'] + boff
+    elif k in ('return', 'Return'):
+        nb['stmts'].append({'dst': call_dst, 'r': {'rv': 'use', 'ops': [{'k': 'move', 'pl': {'l': ret_local, 'p': []}}]}, 'sp': call_sp})
+        nt = {'t': 'goto', 'succ': [call_target] if call_target >= 0 else [], 'sp': t['sp']}
+        if call_target < 0:
+            nt = {'t': 'unreachable', 'succ': [], 'sp': t['sp']}
+    else:
+        nt = dict(t)
+        if 'succ' in t:
+            nt['succ'] = [x + boff for x in t['succ']]
+        if 'pl' in t:
+            nt['pl'] = _shift_place(t['pl'], loff)
+        if 'cond' in t:
+            nt['cond'] = _shift_op(t['cond'], loff)
+    nb['term'] = nt
+    return nb
+
+
+def inline_view(prog, fn, should_inline=None, max_depth=3, max_blocks=6000):
+    """A Fn object with the same name as `fn` whose body contains the bodies of the crate-local functions it calls
+    (recursively, up to max_depth), parameters bound by copies and `return` turned into an assignment to the call's destination.
+    `should_inline(caller_fn, callee_fn)` defaults to: same source file or same module, ordinary (non-closure) function."""
+    if getattr(fn, '_inline_view', None) is not None and should_inline is None:
+        return fn._inline_view
+
+    def default_pred(caller, g):
+        return g.kind in ('Fn', 'AssocFn') and (g.file == fn.file or g.name.rsplit('::', 2)[0] == fn.name.rsplit('::', 2)[0])
+    pred = should_inline or default_pred
+    d = fn.d
+    blocks = [dict(b, stmts=list(b['stmts'])) for b in d['blocks'] if not b['cleanup']]
+    locals_ = list(d['locals'])
+    names = dict(d['names'])
+    next_local = max(l['i'] for l in locals_) + 1
+    next_bb = max(b['bb'] for b in d['blocks']) + 1
+    inlined = []
+    work = [(b, (fn.name,), 0) for b in blocks]
+    by_bb = {b['bb']: b for b in blocks}
+    while work:
+        b, stack, depth = work.pop()
+        t = b['term']
+        if not t or t['t'] != 'call' or depth >= max_depth or len(by_bb) > max_blocks:
+            continue
+        g = prog.resolve(t['resolved'] or t['callee'], fn.crate) or prog.resolve(t['callee'], fn.crate)
+        if g is None or g.name in stack or g.crate != fn.crate or not pred(fn, g) or len(g.blocks) > 600 or g.argc != len(t['args']):
+            continue
+        loff, boff = next_local, next_bb
+        gl = g.d['locals']
+        next_local += max(l['i'] for l in gl) + 1
+        next_bb += max(x['bb'] for x in g.d['blocks']) + 1
+        for l in gl:
+            locals_.append({'i': l['i'] + loff, 'ty': l['ty'], 'user': l['user']})
+        for k, v in g.d['names'].items():
+            nm, _ = k.rsplit('#', 1)
+            names['%s.%s#%d' % (short(g.name), nm, v['l'] + loff)] = _shift_place(v, loff)
+        # bind parameters
+        for ai, a in enumerate(t['args']):
+            b['stmts'].append({'dst': {'l': loff + 1 + ai, 'p': []}, 'r': {'rv': 'use', 'ops': [a]}, 'sp': t['sp']})
+        new_blocks = []
+        for gb in g.d['blocks']:
+            if gb['cleanup']:
+                continue
+            nb = _shift_block(gb, loff, boff, loff, t['dst'], t['target'], t['sp'])
+            new_blocks.append(nb)
+            by_bb[nb['bb']] = nb
+        b['term'] = {'t': 'goto', 'succ': [boff + 0], 'sp': t['sp'], 'inlined_call': t['callee']}
+        blocks.extend(new_blocks)
+        inlined.append(g.name)
+        for nb in new_blocks:
+            work.append((nb, stack + (g.name,), depth + 1))
+    nd = dict(d, blocks=blocks, locals=locals_, names=names)
+    view = Fn(nd, fn.crate, fn.name)
+    view.inlined = inlined
+    view.origin = fn
+    if should_inline is None:
+        fn._inline_view = view
+    return view
+
+
+
+def owner_local_of_upvar(prog, fn, operand):
+    """For an operand of a closure body that is (a borrow of) a captured variable: (owner Fn, local of that variable in the owner).
+    Captures are matched by variable name. Returns (None, None) when the operand is not a capture."""
+    if fn.kind not in ('Closure', 'SyntheticCoroutineBody'):
+        return None, None
+    o = provenance(fn, operand)
+    names = {fn.upvar_names.get(u) for u in o.upvars} - {None}
+    if len(names) != 1:
+        return None, None
+    nm = names.pop()
+    owner = prog.by_crate[fn.crate].get(fn.parent)
+    guard = 0
+    while owner is not None and guard < 4:
+        guard += 1
+        for l, n in owner.varnames.items():
+            if n == nm:
+                return owner, l
+        if owner.kind in ('Closure', 'SyntheticCoroutineBody'):
+            # captured again one level up
+            owner = prog.by_crate[owner.crate].get(owner.parent)
+        else:
+            break
+    return None, None
+
+
 def nearest_user_local(fn, operand):
     """the user variable (or parameter) an operand borrows / copies from, following refs, copies and Deref only"""
     cur = op_local(operand) if isinstance(operand, dict) and 'k' in operand else operand
@@ -893,6 +1046,28 @@ class Program:
                         self.by_crate[crate][d['fn']] = fn
         self._callers = None
         self._impls = None
+
+    def inlined(self):
+        """A second view of the same program in which every ordinary product function of the acb crates carries the bodies of the
+        same-file / same-module functions it calls (inline_view). Closures, constants and test support are left as they are."""
+        import copy
+        q = copy.copy(self)
+        q.fns = dict(self.fns)
+        q.by_crate = collections.defaultdict(dict)
+        for c, m in self.by_crate.items():
+            q.by_crate[c] = dict(m)
+        q._callers = None
+        q.is_inlined_view = True
+        for name, f in self.fns.items():
+            if f.kind in ('Fn', 'AssocFn') and not is_testsupport(name) and f.crate.startswith('acb'):
+                try:
+                    v = inline_view(self, f)
+                except Exception:
+                    continue
+                if v.inlined:
+                    q.fns[name] = v
+                    q.by_crate[f.crate][f.local_name] = v
+        return q
 
     # ---------------------------------------------------------------- look-ups
     def crates(self):
